@@ -229,9 +229,11 @@ def arg_class(m: Model, act: List[Any]) -> str:
 # ---------------------------------------------------------------------------
 # direct evaluation of the Conforms clauses on the real container
 
-def _member_ok(spec: pgt.ValueSpec, value) -> bool:
+def _member_ok(spec: pgt.ValueSpec, value, partial_ok: bool = False) -> bool:
   try:
-    r = spec.apply(copy.deepcopy(value))
+    # (a symbolic object is only inspected by apply, and copying a partial one would re-validate it)
+    arg = value if isinstance(value, pg.Object) else copy.deepcopy(value)
+    r = spec.apply(arg, allow_partial=partial_ok)
   except Exception:  # pylint: disable=broad-except
     return False
   return pg.eq(r, value)
@@ -280,7 +282,7 @@ def direct_clauses(m: Model, c, partial_ok: bool) -> List[str]:
       continue
     if isinstance(field.value, pgt.List) and isinstance(v, list):
       check_list(v, field.value)
-    elif not _member_ok(field.value, v):
+    elif not _member_ok(field.value, v, partial_ok):
       bad.append('member')
   if _hand_missing(c) and not partial_ok:
     bad.append('partial_inside')       # a value with a MISSING member somewhere below, never made partial
@@ -309,6 +311,8 @@ def stale_facts(c) -> List[str]:
     if bool(node.sym_missing(flatten=True)) != hm:
       bad.append('sym_missing')
     for _, v in node.sym_items():
+      if isinstance(v, pg.Symbolic) and v.sym_parent is not node:
+        bad.append('child_detached')     # a stored child whose parent link is gone: changes below it reach nobody
       walk(v)
   walk(c)
   return bad
@@ -384,7 +388,7 @@ def replay_behaviour(chk, m: Model, partial: bool, steps, hits: Dict[str, int], 
                              'ext': _thaw(s_.state.get('ext'))}
                             for s_ in steps[:n + 1]],
               'mirror': mirror}
-    base_sig = {'action': name, 'kind': m.kind, 'arg': arg_class(m, act)}
+    base_sig = {'action': name, 'kind': m.kind, 'arg': arg_class(m, act), 'spec_out': st['out']}
     clauses = direct_clauses(m, c, bool(st['pok']))
     if m.kind == 'nest':
       clauses = clauses + stale_facts(m.ext())
